@@ -429,6 +429,67 @@ def crash_stream(ctx, programs, sanitize=False, tag="api"):
     return crashes
 
 
+# ----------------------------------------------------------------------------------------------
+# descriptor stream: the low-level CTrait constructors with malformed descriptors
+# ----------------------------------------------------------------------------------------------
+FUZZ_DRIVER = "c18_fuzz_driver.py"
+FUZZ_FAMILIES = ["validate%d" % k for k in range(0, 25)] + ["default", "property", "delegate", "kind", "attrs"]
+
+
+def descriptor_stream(ctx, sanitize=False):
+    """A FIXED corpus (seeds do not depend on --seed, so the outcome on a given tree is the same in every run):
+    per family, descriptors are tried in a subprocess; after a crash the family is re-run without the crashing
+    head (first component) so that every crashing head of the family is reported once."""
+    seeds, n = ((1,), 250) if ctx.tier == "quick" else ((1, 2, 3, 4, 5, 6), 400)
+    crashes, tried, accepted = [], 0, 0
+    prog = os.path.join(ctx.scratch, "fuzz_progress%s.txt" % ("_asan" if sanitize else ""))
+    for fam in FUZZ_FAMILIES:
+        skip = []
+        for _round in range(8):
+            crashed = False
+            for seed in seeds:
+                rc, out, err = ctx.run_driver(FUZZ_DRIVER, dict(family=fam, seed=seed, n=n, progress=prog, skip=skip),
+                                              sanitize=sanitize, timeout=600)
+                if rc == 0 and out is not None:
+                    tried += out["tried"]
+                    accepted += out["accepted"]
+                    continue
+                if rc == 124 or (rc == 1 and "Traceback" in err and "Sanitizer" not in err):
+                    ctx.fail("harness/descriptor-stream", "descriptor driver failed rc=%s: %s" % (rc, err[-400:]),
+                             dict(error=err[-2000:]), no_input=True)
+                    return
+                try:
+                    lines = open(prog).read().split("\n")
+                    head, desc = lines[0], lines[1]
+                except Exception:
+                    head, desc = "?", "?"
+                try:
+                    head_v = int(head)
+                except ValueError:
+                    head_v = head
+                crashes.append((fam, head, desc))
+                ctx.fail("crash/descriptor/%s/%s" % (fam, head),
+                         "the interpreter died (rc=%s%s) using a descriptor that the C constructor ACCEPTED: family %s, "
+                         "descriptor %s :: %s" % (rc, ", sanitised build" if sanitize else "", fam, desc[:200],
+                                                  err[-300:].replace("\n", " | ")),
+                         dict(kind="descriptor", family=fam, seed=seed, n=n, skip=list(skip), descriptor=desc,
+                              sanitized=bool(sanitize), returncode=rc, stderr_tail=err[-2000:]))
+                skip.append(head_v)
+                crashed = True
+                break
+            if not crashed:
+                break
+    unknown = [c for c in crashes if not any(e.get("status") == "known" and e.get("key") == "crash/descriptor/%s/%s" % (
+        c[0], c[1]) for e in ctx.known)]
+    ctx.obligation("no crash using descriptors accepted by the low-level CTrait constructors (%s build)" % (
+        "clang ASan+UBSan" if sanitize else "gcc"), not unknown,
+        "%d descriptors tried, %d accepted and exercised; crashing heads: %s" % (
+            tried, accepted, ", ".join("%s/%s" % (c[0], c[1]) for c in crashes) or "none"))
+    ctx.count("descriptor-tried%s" % ("(asan)" if sanitize else ""), tried)
+    ctx.count("descriptor-accepted%s" % ("(asan)" if sanitize else ""), accepted)
+    ctx.cov["evaluations"] += tried
+
+
 def run(ctx):
     ok, log = ctx.proofs(PROPS)
     ctx.cov["level_detail"] = ("proof (partial): table indices and the reference-count ledger are theorems; "
@@ -453,7 +514,15 @@ def run(ctx):
     rnd = random.Random(ctx.seed)
     if ctx.replay:
         rep = json.load(open(ctx.replay))["replay"]
-        if rep.get("kind") == "crash-program":
+        if rep.get("kind") == "descriptor":
+            rc, out, err = ctx.run_driver(FUZZ_DRIVER, dict(family=rep["family"], seed=rep["seed"], n=rep["n"],
+                                                            skip=rep["skip"],
+                                                            progress=os.path.join(ctx.scratch, "fuzz_replay.txt")),
+                                          sanitize=bool(rep.get("sanitized")))
+            if rc != 0:
+                ctx.fail("crash/descriptor/%s/replay" % rep["family"], "replay: the interpreter died again (rc=%s) on "
+                         "descriptor %s" % (rc, rep["descriptor"]), rep)
+        elif rep.get("kind") == "crash-program":
             crash_stream(ctx, [rep["program"]], sanitize=bool(rep.get("sanitized")), tag="replay")
         elif rep.get("kind") == "ctrait":
             t3_ok, t3_data, _ = t3(ctx)
@@ -478,10 +547,12 @@ def run(ctx):
     npr, nops = (24, 120) if ctx.tier == "quick" else (160, 250)
     programs = [dict(index=i, seed=rnd.randrange(1 << 30), n=nops) for i in range(npr)]
     crash_stream(ctx, programs)
+    descriptor_stream(ctx)
     if ctx.tier == "thorough":
         # the same streams on the clang ASan+UBSan build: a report or a dead process is a violation
         ctx.build_impl(sanitize=True)
         crash_stream(ctx, programs, sanitize=True)
+        descriptor_stream(ctx, sanitize=True)
         ctrait_stream(ctx, t3_data, have_gen, sanitize=True, modes=CT_MODES_C18)
         ledger_stream(ctx, cases[:len(corpus())] + cases[-2000:], sanitize=True, tag="ledger_asan")
     if not t3_ok:
